@@ -38,21 +38,29 @@ fn least(sbf: &SbfTable, offset: u64, limit: u64, w: &dyn Fn(u64) -> u64) -> Opt
 struct DemTab {
     need: Vec<u64>,
     least: Vec<u64>,
+    /// total number of arrivals of all components
+    arrivals: Vec<u64>,
 }
 
 impl DemTab {
     fn new(d: &crate::model::dem::Dem, upto: u64) -> DemTab {
         let b = d.build();
+        let arrs: Vec<Box<dyn ArrivalBound>> = d.arrs().iter().map(|a| a.build()).collect();
         DemTab {
             need: (0..=upto).map(|x| u64::from(b.service_needed(dur(x)))).collect(),
             least: (0..=upto).map(|x| u64::from(b.least_wcet_in_interval(dur(x)))).collect(),
+            arrivals: (0..=upto).map(|x| arrs.iter().map(|a| a.number_arrivals(dur(x)) as u64).sum()).collect(),
         }
     }
     fn n(&self, x: u64) -> u64 {
         self.need[x as usize]
     }
+    /// Interval lengths at which the NUMBER OF ARRIVALS of some component steps (with zero-cost jobs
+    /// this is a superset of the lengths at which the demand steps); taken from number_arrivals of the
+    /// component arrival models.
     fn steps_upto(&self, h: u64) -> Vec<u64> {
-        (1..=h).filter(|x| self.need[(*x - 1) as usize] < self.need[*x as usize]).collect()
+        let h = h.min(self.arrivals.len() as u64 - 1);
+        (1..=h).filter(|x| self.arrivals[(*x - 1) as usize] < self.arrivals[*x as usize]).collect()
     }
 }
 
